@@ -289,3 +289,9 @@ package ttlv
 //@   loop 0 invariant s.max <= 0 || need <= s.max || need <= 512
 //@   loop 0 invariant isnew(buf)
 //@   loop 0 ghostmod consumed
+
+// IsErrEncoding is a pure, deterministic classification of the error value.
+//@ func IsErrEncoding
+//@   trusted
+//@   ensures r0 == isenc(err)
+//@   pure
